@@ -593,6 +593,7 @@ type frame struct {
 }
 
 type walker struct {
+	valueDepth int
 	items      []Item
 	stack      []FuncKey
 	sawEffect  bool
@@ -748,6 +749,12 @@ func (w *walker) norm(fr *frame, e ast.Expr) string {
 	case *ast.FuncLit:
 		return "func"
 	case *ast.CallExpr:
+		if sub, re, ok := w.inlineValue(fr, x); ok {
+			w.valueDepth++
+			t := w.norm(sub, re)
+			w.valueDepth--
+			return t
+		}
 		args := w.normArgs(fr, x.Args)
 		fn := w.norm(fr, x.Fun)
 		if se, ok := x.Fun.(*ast.SelectorExpr); ok {
@@ -788,6 +795,53 @@ func (w *walker) norm(fr *frame, e ast.Expr) string {
 	}
 	die("%s: expression form %T not handled", fset.Position(e.Pos()), e)
 	return ""
+}
+
+// a call of a small pure helper of the repo (straight-line body: assignments, then `return <one expression>`, no effects)
+// is replaced by the value it returns, with the arguments substituted: ReturnCoin(ctx, id, amt) -> coin(asset.GetAsset(id).Denom, amt)
+func (w *walker) inlineValue(fr *frame, call *ast.CallExpr) (*frame, ast.Expr, bool) {
+	if w.valueDepth >= 3 {
+		return nil, nil, false
+	}
+	g := resolve(call, fr.fi)
+	if g == nil || hasEffects(g) || len(g.decl.Body.List) == 0 || len(g.decl.Body.List) > 4 {
+		return nil, nil, false
+	}
+	if g.decl.Type.Results == nil || len(g.decl.Type.Results.List) != 1 || len(g.decl.Type.Results.List[0].Names) > 1 {
+		return nil, nil, false
+	}
+	stmts := g.decl.Body.List
+	ret, ok := stmts[len(stmts)-1].(*ast.ReturnStmt)
+	if !ok || len(ret.Results) != 1 {
+		return nil, nil, false
+	}
+	for _, st := range stmts[:len(stmts)-1] {
+		as, ok := st.(*ast.AssignStmt)
+		if !ok || as.Tok != token.DEFINE {
+			return nil, nil, false
+		}
+	}
+	sub := &frame{fi: g, ft: g.decl.Type, env: newEnv(), retErr: g.retErr}
+	i := 0
+	for _, p := range g.decl.Type.Params.List {
+		if len(p.Names) == 0 {
+			i++
+			continue
+		}
+		for _, n := range p.Names {
+			if i < len(call.Args) {
+				sub.env.set(n.Name, w.valOf(fr, call.Args[i]))
+			}
+			i++
+		}
+	}
+	w.valueDepth++
+	for _, st := range stmts[:len(stmts)-1] {
+		as := st.(*ast.AssignStmt)
+		w.assign(sub, as.Lhs, as.Rhs, as.Tok)
+	}
+	w.valueDepth--
+	return sub, ret.Results[0], true
 }
 
 func (w *walker) valOf(fr *frame, e ast.Expr) *Val {
@@ -833,6 +887,12 @@ func (w *walker) valOf(fr *frame, e ast.Expr) *Val {
 		return v
 	}
 	if ce, ok := e.(*ast.CallExpr); ok {
+		if sub, re, ok := w.inlineValue(fr, ce); ok {
+			w.valueDepth++
+			v := w.valOf(sub, re)
+			w.valueDepth--
+			return v
+		}
 		switch w.norm(fr, ce.Fun) {
 		case "sdk.NewCoin":
 			v := &Val{text: clip(w.norm(fr, e), capMid), fn: "coin"}
